@@ -32,7 +32,9 @@ from . import core
 from .core import MachineryError
 
 # ----------------------------------------------------------------------------- alphabets
-QUICK_SYMS = ["w", "sp", "tb", "nl", "cr", "pc", "hs", "bs", "lt", "gt", "sl", "dl", "lb", "rb", "TX", "DC"]
+BASE_SYMS = ["w", "sp", "tb", "nl", "cr", "pc", "hs", "bs", "lt", "gt", "sl", "dl", "lb", "rb", "TX", "DC"]
+# + the two "suspicious" filler symbols: o = neither word nor white space, v = Unicode-only white space
+QUICK_SYMS = BASE_SYMS + ["o", "v"]
 THOROUGH_SYMS = QUICK_SYMS + ["u", "pp", "dq", "ex"]
 HOT_SYMS = ["pc", "hs", "bs", "nl", "lt", "sl", "w", "sp"]
 EXPR_SYMS = ["w", "sp", "nl", "hs", "lb", "rb", "lp", "rp", "dq", "sq", "pp", "bs"]
@@ -44,9 +46,14 @@ FIXED = {"sp": " ", "tb": "\t", "cr": "\r", "pc": "%", "hs": "#", "dl": "$", "lb
          "BLK": "<%block>", "IFT": "if True:", "IFF": "if False:", "FOR": "for _i in (1, 2):",
          "EIF": "endif", "EFR": "endfor"}
 W_POOL = ["a", "b7", "kk", "zq", "Yy_1"]
-U_POOL = ["é", "ü", "漢", "Ω", "ж"]
-O_POOL = ["~", "@", "^", ";", "&", "*", "+", "-", "?", "\u20ac", "\u2713", "\ufeff", "\u200b"]
-V_POOL = ["\x0b", "\x0c", "\x85", "\xa0", "\u2028"]
+U_POOL = ["é", "ü", "漢", "Ω", "ж", "\U00010400"]      # the last one: a non-BMP letter
+# Suspicious characters, by class of the filler symbol they concretise.  Every class is used SYSTEMATICALLY (rotated over
+# the enumeration; all of them at the first position of the text), not drawn at random:
+#   o: ZWNBSP/BOM, ZWSP, NUL, a combining mark, a non-BMP symbol (+ two ordinary ones)
+#   v: LS, PS, NEL, VT, FF, NBSP -- white space for \s / str.strip, not for `[ \t]`, not line ends for `^`
+O_CLASSES = ["\ufeff", "\u200b", "\x00", "\u0301", "\U0001F600", "~", "\u20ac"]
+V_CLASSES = ["\u2028", "\u2029", "\x85", "\x0b", "\x0c", "\xa0"]
+O_POOL, V_POOL = O_CLASSES, V_CLASSES
 CTL = {"IFT": ("if", False), "IFF": ("if", False), "FOR": ("for", False), "EIF": ("if", True), "EFR": ("for", True)}
 
 EXTRA_STRINGS = [
@@ -61,16 +68,25 @@ EXTRA_STRINGS = [
     "w bs cr nl pc pc nl hs hs w bs nl w nl w",
     "lt pc sp w sp pc gt dl lb w rb nl tb pc pc w",
     "lt pc ex sp pc gt nl sp hs hs sp w cr nl pc pc",
+    # suspicious characters (run with EVERY class behind o / v): first / last character, after a newline, before a directive
+    "o w nl o dl lb w rb o",
+    "v w nl v dl lb w rb v",
+    "o lt pc TX gt o lt sl pc TX gt o",
+    "v nl v pc pc w nl o pc pc",
+    "dl lb v w rb",                              # Unicode-only white space inside ${ } ...
+    "w lt pc sp v sp pc gt w",                   # ... and inside <% %>
+    "dl lb w sp pp v w v rb",
 ]
 
 
-def conc_map(rng, syms):
+def conc_map(rng, syms, oc=None, vc=None):
     """Concretisation of every symbol for ONE string / document (drawn from the seed)."""
     m = dict(FIXED)
     m["w"] = rng.choice(W_POOL)
     m["u"] = rng.choice(U_POOL)
-    m["o"] = rng.choice(O_POOL)
-    m["v"] = rng.choice(V_POOL)
+    o, v = rng.choice(O_CLASSES), rng.choice(V_CLASSES)
+    m["o"] = o if oc is None else O_CLASSES[oc % len(O_CLASSES)]
+    m["v"] = v if vc is None else V_CLASSES[vc % len(V_CLASSES)]
     crlf = rng.random() < 0.4
     for i in range(len(syms) - 1):
         if syms[i] == "cr" and syms[i + 1] == "nl":
@@ -113,7 +129,7 @@ def flatten(nodes, out):
         elif isinstance(n, parsetree.Comment):
             out.append(["comment", n.lineno, n.pos, n.text])
         elif isinstance(n, parsetree.Expression):
-            out.append(["expr", n.lineno, n.pos, norm_nl(n.text), norm_nl(n.escapes)])
+            out.append(["expr", n.lineno, n.pos, norm_nl(n.text), norm_nl(n.escapes.strip())])
         elif isinstance(n, parsetree.Code):
             out.append(["code", n.lineno, n.pos, bool(n.ismodule), n.text])
         elif isinstance(n, parsetree.ControlLine):
@@ -206,7 +222,7 @@ def concretise_alt(alt, m, syms, text, off):
         elif k == "comment":
             nodes.append(["comment", l, c, b])
         elif k == "expr":
-            f = cat(m, n["f"])
+            f = cat(m, n["f"]).strip()       # the filter text is compared modulo surrounding white space (any kind)
             nodes.append(["expr", l, c, norm_nl(b), norm_nl(f)])
             if not py_ok(b.lstrip()):
                 j = "invalid"
@@ -323,7 +339,7 @@ def make_ctx():
     return ctx
 
 
-SPECIAL = ["incomplete-close", "lone-cr-line", "hash-eof-expr", "empty-text-tag", "hash-eof-block",
+SPECIAL = ["incomplete-close", "lone-cr-line", "hash-eof-expr", "empty-text-tag", "hash-eof-block", "exotic-space-in-python",
            "cr-before-percent", "comment-continuation", "junk-attr"]
 
 
@@ -397,10 +413,11 @@ def classify(alts, calts, real, render_obs):
 # ----------------------------------------------------------------------------- one string (worker side)
 def check_string(job):
     """job = (syms, alts, seed) -> None | dict describing the disagreement; also returns counters."""
-    syms, alts, seed, do_render = job
+    syms, alts, seed, do_render = job[:4]
+    oc, vc = (tuple(job) + (None, None))[4:6]
     warnings.simplefilter("ignore")        # SyntaxWarnings of CPython about the generated Python fragments
     rng = random.Random(seed)
-    m = conc_map(rng, syms)
+    m = conc_map(rng, syms, oc, vc)
     text = cat(m, syms)
     off = offsets(m, syms)
     nlines = text.count("\n")
@@ -492,15 +509,31 @@ def enumerate_strings(run, name, syms, k, prefix=(), extra=(), first=None, with_
     return res, by
 
 
-def replay(run, label, by, procs, render_every=1):
+def replay(run, label, by, procs, render_every=1, all_classes=False):
     jobs = []
+    lead = {"o": 0, "v": 0}
     for idx, key in enumerate(sorted(by)):
         h = int(hashlib.sha1(("%d|%s|%s" % (run.seed, label, " ".join(key))).encode()).hexdigest()[:8], 16)
-        jobs.append((list(key), by[key], h, (idx % render_every) == 0))
+        rend = (idx % render_every) == 0
+        # the class of suspicious character behind o / v rotates over the enumeration (from the seed) ...
+        classes = [(h % len(O_CLASSES), (h // 64) % len(V_CLASSES))]
+        if key and key[0] in lead:
+            n = len(O_CLASSES) if key[0] == "o" else len(V_CLASSES)
+            if len(key) <= 3:
+                # ... and at the FIRST position of the text every class is used on every short string
+                classes = [((c, classes[0][1]) if key[0] == "o" else (classes[0][0], c)) for c in range(n)]
+            else:
+                lead[key[0]] += 1          # ... and in strict rotation on the longer ones
+                c = (lead[key[0]] + run.seed) % n
+                classes = [(c, classes[0][1]) if key[0] == "o" else (classes[0][0], c)]
+        if all_classes and ("o" in key or "v" in key):
+            classes = [(c, c) for c in range(max(len(O_CLASSES), len(V_CLASSES)))]
+        for oc, vc in classes:
+            jobs.append((list(key), by[key], h, rend, oc % len(O_CLASSES), vc % len(V_CLASSES)))
     results = _pool_map(check_string, jobs, procs)
     bad = 0
     rendered = 0
-    for (syms, alts, h, _), (r, rn) in zip(jobs, results):
+    for (syms, alts, h, _, oc, vc), (r, rn) in zip(jobs, results):
         if rn < 0:
             rn += 1000000
             run.extra["error_position_differences"] = run.extra.get("error_position_differences", 0) + 1
@@ -510,6 +543,7 @@ def replay(run, label, by, procs, render_every=1):
         if r is not None:
             bad += 1
             r["concretisation_seed"] = h
+            r["filler_classes"] = {"o": O_CLASSES[oc], "v": V_CLASSES[vc]}
             r["spec_outcomes"] = alts
             run.violation(r["sig"], "%r: expected (TLC) %s; observed %s" % (r["text"], _short(r["expected"]), _short(r["observed"])), r)
     run.traces += len(jobs)
@@ -569,8 +603,10 @@ class DocGen:
             ls_blank = self.blank_line_so_far()
             x = r.random()
             last = self.s[-1] if self.s else None
-            if x < 0.30:
-                c = r.choice(["w", "u", "o", "w"])
+            if last == "nl" and x < 0.12:
+                c = r.choice(["o", "v"])                 # a suspicious character directly after a newline
+            elif x < 0.30:
+                c = r.choice(["w", "u", "o", "w", "v"])
             elif x < 0.45:
                 c = r.choice(["sp", "sp", "tb"])
             elif x < 0.55 and not inline:
@@ -623,7 +659,7 @@ class DocGen:
         """n arbitrary symbols (anything at all, directives included) not containing `avoid`."""
         r = self.r
         start = len(self.s)
-        pool = ["w", "u", "o", "sp", "tb", "nl", "pc", "hs", "dl", "lb", "rb", "lt", "gt", "sl", "bs", "pp", "ex",
+        pool = ["w", "u", "o", "v", "sp", "tb", "nl", "pc", "hs", "dl", "lb", "rb", "lt", "gt", "sl", "bs", "pp", "ex",
                 "dq", "sq", "lp", "rp", "TX", "DC", "DF", "BK", "IFT", "EIF", "DEF", "BLK", "cr"]
         for _ in range(n):
             c = r.choice(pool)
@@ -667,7 +703,7 @@ class DocGen:
         self.blanks(0.4)
         self.emit("hs", "hs")
         n = self.r.randint(0, 8)
-        pool = ["w", "u", "o", "sp", "tb", "pc", "hs", "dl", "lb", "rb", "lt", "gt", "sl", "pp", "dq", "TX", "IFT", "DEF"]
+        pool = ["w", "u", "o", "v", "sp", "tb", "pc", "hs", "dl", "lb", "rb", "lt", "gt", "sl", "pp", "dq", "TX", "IFT", "DEF"]
         for _ in range(n):
             self.emit(self.r.choice(pool))
         self.end_line()
@@ -748,6 +784,8 @@ class DocGen:
                 self.emit("nl")          # a control line's terminator
                 self.end_ctl = False
             x = r.random()
+            if 0.38 <= x < 0.84 and r.random() < 0.3 and not (0.56 <= x < 0.69):
+                self.emit(r.choice(["o", "v"]))          # a suspicious character directly before an inline directive
             if x < 0.38:
                 self.filler(r.randint(1, 10))
             elif x < 0.50:
@@ -773,13 +811,19 @@ class DocGen:
             self.emit("nl")
             self.end_ctl = False
 
-    def document(self, n):
+    def document(self, n, first=None, last=None):
+        if first:
+            self.emit(first)             # a suspicious character as the very first character of the document
         self.body(0, n, False)
         if self.end_ctl:
-            if self.r.random() < 0.5:
+            if last or self.r.random() < 0.5:
                 self.emit("nl")          # else: the control line ends at the end of input
         elif self.r.random() < 0.3:
             self.filler(self.r.randint(1, 4))
+        if last:
+            if self.s[-1] in ("bs", "dl", "lt"):
+                self.emit("w")
+            self.emit(last)              # ... and as the very last one
         return self.s
 
 
@@ -809,9 +853,9 @@ class Tokeniser:
         return out
 
 
-def record_document(syms, seed):
+def record_document(syms, seed, oc=None, vc=None):
     rng = random.Random(seed)
-    m = conc_map(rng, syms)
+    m = conc_map(rng, syms, oc, vc)
     text = cat(m, syms)
     off = offsets(m, syms)
     idx = {o: i + 1 for i, o in enumerate(off)}
@@ -884,8 +928,7 @@ def record_document(syms, seed):
 
 
 def _record_job(job):
-    syms, seed = job
-    return record_document(syms, seed)
+    return record_document(*job)
 
 
 TRACE_CFG = "SPECIFICATION TSpec\nINVARIANT TAccounting\nCHECK_DEADLOCK FALSE\n"
@@ -896,8 +939,12 @@ def validate_documents(run, ndocs, lo, hi, procs, workers):
     for i in range(ndocs):
         rng = random.Random("%d/doc/%d" % (run.seed, i))
         n = rng.randint(lo, hi)
-        syms = DocGen(rng).document(n)
-        docs.append((syms, rng.randrange(1 << 30)))
+        # suspicious characters: every document begins with one and most end with one; the class behind o / v
+        # rotates over the documents so that every class stands at offset 0 of some document in every run
+        first = ["o", "v"][i % 2]
+        last = [None, "o", "v"][(i // 2) % 3]
+        syms = DocGen(rng).document(n, first, last)
+        docs.append((syms, rng.randrange(1 << 30), (i // 2 + run.seed) % len(O_CLASSES), (i // 2 + run.seed) % len(V_CLASSES)))
     recs = _pool_map(_record_job, docs, procs if ndocs >= 2000 else 1) if False else [_record_job(d) for d in docs]
     traces = []
     texts = {}
@@ -973,7 +1020,7 @@ def check(run):
     # coverage (vacuity) on the small instance k = 3 + the hand-picked strings: every matcher must fire
     res3, by3 = enumerate_strings(run, "mc-k3-coverage", QUICK_SYMS, 3, extra=extra, workers=workers, coverage=True)
     run.extra["action_coverage"] = {a: res3.coverage.get(a, [0, 0])[1] for a in MATCHERS}
-    n, rn, bad = replay(run, "k3", {k: v for k, v in by3.items() if len(k) > 4}, 1)
+    n, rn, bad = replay(run, "k3", {k: v for k, v in by3.items() if len(k) > 4}, 1, all_classes=True)
     stats["hand-picked strings"] = {"strings": n, "rendered": rn, "disagreements": bad}
     res, by = enumerate_strings(run, "mc-k4", QUICK_SYMS, 4, workers=workers)
     kinds = set(nd["k"] for alts in by.values() for a in alts for nd in a["n"]) | set(a["e"]["why"] for alts in by.values() for a in alts)
@@ -1022,12 +1069,12 @@ def check(run):
     if thorough:
         # k = 5 over the 16 symbols, one TLC start per first symbol (bounds the size of TLC's output)
         tot = [0, 0, 0, 0]
-        for f in QUICK_SYMS:
-            res, by = enumerate_strings(run, "mc-k5-" + f, QUICK_SYMS, 5, first=[f], with_empty=False, workers=workers)
+        for f in BASE_SYMS:
+            res, by = enumerate_strings(run, "mc-k5-" + f, BASE_SYMS, 5, first=[f], with_empty=False, workers=workers)
             by = {k: v for k, v in by.items() if len(k) == 5}
             n, rn, bad = replay(run, "k5", by, procs, render_every=5)
             tot = [tot[0] + n, tot[1] + rn, tot[2] + bad, tot[3] + res.distinct]
-        stats["k=5 over %d symbols" % len(QUICK_SYMS)] = {"strings": tot[0], "rendered": tot[1], "disagreements": tot[2], "states": tot[3]}
+        stats["k=5 over %d symbols" % len(BASE_SYMS)] = {"strings": tot[0], "rendered": tot[1], "disagreements": tot[2], "states": tot[3]}
         # k <= 4 over 20 symbols (adds non-ASCII words, |, ", !)
         res, by = enumerate_strings(run, "mc-k4-20", THOROUGH_SYMS, 4, workers=workers)
         by = {k: v for k, v in by.items() if set(k) - set(QUICK_SYMS)}
